@@ -765,7 +765,9 @@ func runC17Backoff(c *Ctx) {
 			c.Check(grows, "R4.backoff", "Backoff|exponential term inside the clamp", w.Pos(minCall.Pos()), "base*multiplier^attempt is what gets clamped", "the clamped value does not contain the exponential term (clamp applied before the exponent?)")
 			// jitter factor: 1 + Jitter*(2r-1): contains p0.Jitter and constant 1, and no MaxDelay / Pow
 			oe := w.Expr(other)
-			okJ := strings.Contains(oe, "p0.Jitter") && !strings.Contains(oe, "math.Pow") && !strings.Contains(oe, "MaxDelay")
+			// (the configured jitter itself: a package-level default standing in for a configured 0 widens the bound the
+			// caller asked for)
+			okJ := strings.Contains(oe, "p0.Jitter") && !strings.Contains(oe, "math.Pow") && !strings.Contains(oe, "MaxDelay") && !strings.Contains(oe, "global:")
 			c.Check(okJ, "R4.backoff", "Backoff|jitter factor", w.Pos(mul.Pos()), "multiplied by 1 + Jitter*(2r-1) only", "what multiplies the clamped value is not the jitter factor: "+w.Short(other))
 		}
 	}
